@@ -46,7 +46,7 @@ CLASSES = [
     "trunc", "trunc_parses", "subst_breaks_json", "subst_parses_different_value", "subst_parses_same_value", "invalid_utf8",
     "deleted", "swapped", "type_change", "reformat_not_damage", "nondict_json", "duplicate_key", "renamed_dir", "with_cache",
     "without_cache", "partial_cache", "multi_job", "repair_mixed_repairable_and_not", "rename_onto_cached_id",
-    "repair_all_expected", "repair_raises_for_unrepairable", "nondict_in_matching_dir", "bare_job", "cache_updated_twice",
+    "repair_all_expected", "repair_raises_for_unrepairable", "nondict_in_matching_dir", "bare_job", "cache_updated_twice", "same_damage_after_repair_and_update_cache",
 ]
 ASSUMPTIONS = [
     "a job is damaged iff its state point file is absent, not UTF-8, not JSON, not a JSON object, or does not hash to the directory name",
@@ -642,8 +642,9 @@ def run_case(case, ctx):
         cl.add("repair_mixed_repairable_and_not")
     payload_before = {d: payload_of(ws, d) for d in table}
     intact_before = {d for d in table if d not in damaged}
+    pr = signac.Project(b.root)
     try:
-        signac.Project(b.root).repair()
+        pr.repair()
         rep = "returned"
     except JobsCorruptedError as e:
         rep = "raised JobsCorruptedError(%s)" % sorted(x[:8] for x in e.job_ids)
@@ -684,6 +685,26 @@ def run_case(case, ctx):
     after_multi = sorted(payload_of(ws, d) for d in after)
     if before_multi != after_multi:
         mms.append(Mismatch("repair_changed_payload", "repair() %s changed document / data files (compared per directory, modulo renames); %s" % (rep, what)))
+    # ---- (4) the same damage a second time --------------------------------------------
+    # the session that repaired the workspace also updates the persistent cache; later the same directories are
+    # misnamed in the same way again: a new session still never accepts a state point that does not hash to the name
+    again = [(d, final) for d, (final, i) in sorted(expect.items()) if final != d and final in after and d not in after]
+    if case.get("round2") and rep == "returned" and again and not mms:
+        cl.add("same_damage_after_repair_and_update_cache")
+        try:
+            pr.update_cache()
+        except Exception as e:
+            mms.append(Mismatch("repair_wrong_exception", "update_cache() in the session that repaired the workspace raised %s: %s; %s" % (type(e).__name__, e, what)))
+            return {"mismatches": mms, "classes": sorted(cl), "nontrivial": nontrivial}
+        for d, final in again:
+            os.rename(os.path.join(ws, final), os.path.join(ws, d))
+        table = {d: classify(ws, d) for d in sorted(os.listdir(ws))}
+        what = what + "; [second round: repaired, cache updated in that session, then %s misnamed again]" % sorted(x[:8] for x, _ in again)
+        for d, final in again:
+            p_new = signac.Project(b.root)
+            judge("open_job(id).statepoint() in a new session, second round", d, lambda: p_new.open_job(id=d).statepoint())
+            p_new2 = signac.Project(b.root)
+            judge("open_job(id).cached_statepoint in a new session, second round", d, lambda: dict(p_new2.open_job(id=d).cached_statepoint))
     return {"mismatches": mms, "classes": sorted(cl), "nontrivial": nontrivial}
 
 
@@ -772,7 +793,8 @@ def cases(draw):
         faults.append(f)
     recache = cache and draw(st.integers(0, 2)) == 0
     bare = [i for i in range(len(jobs)) if draw(st.integers(0, 3)) == 0]
-    return {"jobs": jobs, "cache": cache, "late": sorted(late), "ghost": ghost, "faults": faults, "bare": bare, "recache": recache}
+    return {"jobs": jobs, "cache": cache, "late": sorted(late), "ghost": ghost, "faults": faults, "bare": bare, "recache": recache,
+            "round2": draw(st.booleans())}
 
 
 CONSTRUCTED = [
@@ -815,6 +837,9 @@ CONSTRUCTED = [
      "faults": [{"job": 0, "kind": "trunc", "at": 3}, {"job": 2, "kind": "delete"}]},
     {"jobs": [SHAPES[0], SHAPES[9]], "cache": True, "late": [1], "ghost": True, "recache": True, "bare": [1],
      "faults": [{"job": 1, "kind": "replace", "how": "type_change", "with": 0}]},
+    # a misnamed directory is repaired, the cache updated in that session, and the directory misnamed the same way again
+    {"jobs": [SHAPES[0], SHAPES[1]], "cache": True, "late": [], "ghost": False, "round2": True, "faults": [{"job": 0, "kind": "rename", "to": "fresh", "n": 0}]},
+    {"jobs": [SHAPES[0], SHAPES[1], SHAPES[9]], "cache": False, "late": [], "ghost": False, "round2": True, "faults": [{"job": 1, "kind": "rename", "to": "fresh", "n": 1}]},
 ]
 
 
